@@ -44,6 +44,10 @@ func c18Name(r *rng) string {
 	if r.chance(1, 5) {
 		return pick(r, c18OddNames)
 	}
+	if cs := c02HostCollisions(); len(cs) > 0 && r.chance(1, 8) {
+		// a name whose 32-bit hash equals that of another name (which is then queried, see genC18)
+		return pick(r, cs)[r.n(2)]
+	}
 
 	return pick(r, []string{"", "", "www.", "ads."}) + pick(r, poolDomains)
 }
@@ -213,6 +217,15 @@ func genC18(r *rng, n int, w *bufio.Writer) {
 			}
 		}
 		qs = append(qs, "unlisted.example")
+		for _, p := range c02HostCollisions() {
+			for _, nm := range names {
+				if nm == p[0] {
+					qs = append(qs, p[1])
+				} else if nm == p[1] {
+					qs = append(qs, p[0])
+				}
+			}
+		}
 		seen := map[string]bool{"": true}
 		var uq []string
 		for _, q := range qs {
